@@ -396,7 +396,8 @@ def differential(chk, suite_name, cases, entry, model_cases=None, impl_fn="impl"
     dis = []
     kinds = {}
     flags = []
-    for c, a, b in zip(cases, ires, mres):
+    for c, a_raw, b in zip(cases, ires, mres):
+        a = a_raw
         if normalise:
             a, b = normalise(a), normalise(b)
         k = a[0] if isinstance(a, list) and a and isinstance(a[0], str) else type(a).__name__
@@ -407,9 +408,9 @@ def differential(chk, suite_name, cases, entry, model_cases=None, impl_fn="impl"
         if model_ok and a != b:
             dis.append({"case": c, "impl": a, "model": b})
         if oracle:
-            v = oracle(c, a)
+            v = oracle(c, a_raw)
             if v:
-                chk.violation(v, c, suite_name, classify(c, a, v) if classify else None)
+                chk.violation(v, c, suite_name, classify(c, a_raw, v) if classify else None)
     chk.add_cases(cases, flags)
     chk.traces += len(cases)
     if model_ok:
